@@ -29,6 +29,8 @@ row = f"| {name} | {change} | {needs} | {det} | {caught} |\n"
 # the table ends right before the marker (possibly separated by a blank line)
 j = s.rstrip("\n").rfind("\n", 0, i - 1)
 head = s[:i].rstrip("\n")
+if not head.splitlines()[-1].startswith("|"):      # a round summary closed the table: open it again
+    head += "\n\n| seed | change | needs to manifest | caught by | first version |\n|---|---|---|---|---|"
 s = head + "\n" + row + "\n" + s[i:]
 p.write_text(s)
 print("stored", name)
